@@ -1,0 +1,22 @@
+//go:build verif
+
+// Contracts for package compressor, read by the govc verifier (/verif). Comments only.
+package compressor
+
+// C18: the codecs keep no state between calls: a decompression writes byte buffers (the destination it was handed) and objects
+// it creates itself, never a field of the compressor. One compressor instance is shared by all concurrent reads of a reader.
+
+//@ iface CompressionI.DecompressWithBuf
+//@   modifies bytes(*)
+
+//@ func (*GzipCompressor).DecompressWithBuf
+//@   props C18
+//@   modifies bytes(*)
+
+//@ func (*SnappyCompressor).DecompressWithBuf
+//@   props C18
+//@   modifies bytes(*)
+
+//@ func (LzwCompressor).DecompressWithBuf
+//@   props C18
+//@   modifies bytes(*)
